@@ -986,6 +986,20 @@ def store_random(W, n, maxlen):
                 ops.append({"op": "Remove", "sid": sid, "via": rnd.randint(0, 1)})
         for st in ("memory", "redis"):
             res.append({"id": "smrandom/%s/%d" % (st, k), "store": st, "abs": a, "idle": i, "ops": ops})
+    # Redis: one command of one operation fails. Either the operation reports it (nothing more is known about the id), or it
+    # claims success and then everything must be as if it had succeeded
+    k = 0
+    victims = [{"op": "SetTok", "sid": "s1", "v": v} for v in (1, 2, 3, 4)] + [{"op": "SetAuth", "sid": "s1", "v": 2}, {"op": "ClearAuth", "sid": "s1"},
+                                                                            {"op": "GetTok", "sid": "s1"}, {"op": "GetAuth", "sid": "s1"}, {"op": "Remove", "sid": "s1"}]
+    for (a, i) in ((0, 0), (45, 30)):
+        for v1 in (1, 2, 3, 4):
+            for victim in victims:
+                for fk in range(1, 9):
+                    k += 1
+                    ops = [{"op": "SetTok", "sid": "s1", "v": v1, "via": 0}, {"op": "SetAuth", "sid": "s1", "v": v1, "via": 1}]
+                    ops.append(dict(victim, via=k % 2, fault=fk))
+                    ops += [{"op": "GetTok", "sid": "s1", "via": 1}, {"op": "GetAuth", "sid": "s1", "via": 0}, {"op": "tick", "v": 3}, {"op": "GetTok", "sid": "s1", "via": 0}]
+                    res.append({"id": "smfault/redis/%d" % k, "store": "redis", "abs": a, "idle": i, "ops": ops})
     return res
 
 
